@@ -58,6 +58,70 @@ def pure_of_scalars(f) -> bool:
     return True
 
 
+_PURE_BUILTINS = {"str", "int", "float", "bool", "len", "min", "max", "abs", "ord", "chr", "tuple", "repr", "round", "divmod", "sum", "sorted"}
+
+
+def complete_key_memo(eng, f, tgt: ast.Subscript, st: ast.AST) -> bool:
+    """`M[key] = value` where every input of `value` is part of `key`: value reads only atoms (parameter / attribute chains) that the
+    key contains, module-level tables that nothing writes, constants, and calls of builtins or pure helpers of scalars.  Such a memo
+    returns what would be computed anyway: what an earlier generation stored cannot change a later result."""
+    from ..dataflow import deep_resolve
+    if not isinstance(st, ast.Assign):
+        return False
+    prog = eng.prog
+    m = f.module
+    key = deep_resolve(f.node, tgt.slice)
+    val = deep_resolve(f.node, st.value)
+
+    def atoms(e):
+        out, calls_ok = set(), True
+        skip = set()
+        for n in ast.walk(e):
+            if id(n) in skip:
+                continue
+            if isinstance(n, ast.Call):
+                fn = n.func
+                nm = dotted(fn) or ""
+                if isinstance(fn, ast.Name) and fn.id in _PURE_BUILTINS:
+                    skip.add(id(fn))
+                elif isinstance(fn, ast.Name) and (prog.lookup_module_symbol(m, fn.id) or ("",))[0] == "func" and pure_of_scalars(prog.functions[prog.lookup_module_symbol(m, fn.id)[1]]):
+                    skip.add(id(fn))
+                else:
+                    calls_ok = False
+            elif isinstance(n, ast.Attribute):
+                d = dotted(n)
+                if d:
+                    out.add(d)
+                    for c in ast.walk(n.value):
+                        skip.add(id(c))
+            elif isinstance(n, ast.Name) and isinstance(n.ctx, ast.Load):
+                out.add(n.id)
+        return out, calls_ok
+
+    ka, _ = atoms(key)
+    va, ok = atoms(val)
+    if not ok:
+        return False
+    written = set()
+    for g in prog.functions.values():
+        if g.module is not m:
+            continue
+        for kind, t2, st2 in stores_in(g.node):
+            r = t2
+            while isinstance(r, (ast.Attribute, ast.Subscript)):
+                r = r.value
+            if isinstance(r, ast.Name) and not isinstance(t2, ast.Name):
+                written.add(r.id)
+    for a in va:
+        if a in ka:
+            continue
+        root = a.split(".")[0]
+        if root == a and root in m.assigns and root not in written and root not in f.local_names():
+            continue  # a module-level table that nothing writes
+        return False
+    return True
+
+
 def run(eng, rep) -> None:
     prog, cg, T = eng.prog, eng.cg, eng.T
     rep.explanation = (
@@ -373,7 +437,9 @@ def r172(eng, rep, reach) -> None:
                     from ..dataflow import deep_resolve
                     kx = norm(deep_resolve(f.node, tgt.slice), 400)
                     content_keyed = any(t_ in kx for t_ in ("frozenset(", "tuple(", "hash(", "digest", ".read(", "get_source(", "sorted("))
-                if content_keyed:
+                if kind == "sub-store" and isinstance(tgt, ast.Subscript) and complete_key_memo(eng, f, tgt, st):
+                    rep.ok("R17.2", f.file, f.qual, norm(st, 70), "module-level memo '%s': every input of the stored value is part of its key, so a stored result is the result" % root.id)
+                elif content_keyed:
                     rep.undecided("R17.2", f.file, f.qual, norm(st, 70), "module-level cache '%s' keyed by a value computed from content (%s); completeness of the key is not decided" % (root.id, norm(tgt.slice, 30)))
                 else:
                     rep.violation("R17.2", f.file, f.qual, norm(st, 70), "module-level object '%s' is mutated on a generate path: results depend on what the process generated or parsed before" % root.id)
@@ -564,7 +630,7 @@ def r173(eng, rep, gens, reach) -> None:
                 init = prog.find_method(f.cls, "__init__")
                 if init is not None:
                     for n in walk_local(init.node):
-                        if isinstance(n, ast.Assign) and norm(n.targets[0]) == norm(e):
+                        if (isinstance(n, ast.Assign) and norm(n.targets[0]) == norm(e)) or (isinstance(n, ast.AnnAssign) and n.value is not None and norm(n.target) == norm(e)):
                             lv = fresh_expr(init, n.value, depth + 1)
                             if lv is not None:
                                 return lv
